@@ -246,7 +246,7 @@ PROPS["C07"] = dict(
     bounds={"faults": "one injected failure per run at any of ~45 call sites, errno symbolic in 1..133 (EINTR/ETXTBSY/EEXIST/ESRCH excluded)",
             "configurations": "ptrace x seccomp x {no namespaces, user+mount+pid+uts namespaces} x late cgroup unshare x sync callback (incl. failing callback); credential, groups, 1 mount, 2 rlimits, pivot root, workdir, host/domain name switched on",
             "schedules": "run-until-block (preemption bound 0)"},
-    outside=["EINTR storms, partial writes on the sync socket", "container-side relay of the sync (C10 machinery)"],
+    outside=["EINTR storms, partial writes on the sync socket", "relay of the sync gate beyond one operation per history"],
     assumptions=["K-* contract clauses"],
     harnesses=[dict(pkg=FE, run="^VerifC07_Faults_p%d$" % i, replay="model", preempt=0, timeout=1500, reach=["start-error", "start-ok"] + (["callback-error"] if i & 2 else [])) for i in range(4)],
 )
@@ -278,6 +278,8 @@ PROPS["C10"] = dict(
         # another operation on the same environment while a program runs (its command must never be taken for the run's kill message)
         dict(pkg=CT, run="^VerifC17_OpDuringExecve$", replay="model", preempt=1, timeout=1500, reach=["both-returned", "program-ran"]),
         dict(pkg=CT, run="^VerifC10_Ops2$", tiers=["thorough"], replay="model", preempt=1, timeout=30000, max_paths=50000000),
+        # container-side relay of the sync gate (refusal before / after exec, also of a program that never ends by itself)
+        dict(pkg=CT, run="^VerifC10_Ops1$", tiers=["quick", "thorough"], replay="model", preempt=1, timeout=1500, reach=["final-ping"]),
     ],
 )
 
